@@ -182,12 +182,19 @@ func (reg *Reg) TagDelete(ctx context.Context, r ref.Ref) error {
 	}
 
 	// delete manifest by digest
+	rTag := r
 	r = r.AddDigest(tempManifest.GetDescriptor().Digest.String())
 	reg.slog.Debug("Deleting dummy manifest",
 		slog.String("ref", r.Reference),
 		slog.String("digest", r.Digest))
 	err = reg.ManifestDelete(ctx, r)
 	if err != nil {
+		// the registry does not delete manifests either, point the tag back at its manifest rather than leaving the dummy there
+		if origDigest := curManifest.GetDescriptor().Digest.String(); origDigest != "" {
+			if origManifest, errGet := reg.ManifestGet(ctx, rTag.SetDigest(origDigest)); errGet == nil {
+				_ = reg.ManifestPut(ctx, rTag, origManifest)
+			}
+		}
 		return fmt.Errorf("failed deleting dummy manifest for %s: %w", r.CommonName(), err)
 	}
 
